@@ -243,6 +243,18 @@ def run(ctx):
             if not np.allclose(ma, m, rtol=1e-6):
                 viol("conversion/round-trip", f"{a} -> {b} -> {a} at z={z} (Om0={cosmo.Om0:.3f}) returns {float(np.max(np.abs(ma / m - 1))):.3g} away from the original mass",
                      {"a": str(a), "b": str(b), "z": z, "Om0": float(cosmo.Om0)})
+            # one profile object built at another redshift and re-used (the redshift passed to change_definition is the one that counts), with
+            # the concentration taken from the profile's own relation: same result as with a profile built at the requested redshift
+            if z > 0:
+                p_other = NFW(a, 0.0, cosmo)
+                with warnings.catch_warnings():
+                    warnings.simplefilter("ignore")
+                    m1_, r1_, c1_ = a.change_definition(m, b, profile=p_other, z=z, cosmo=cosmo)
+                m2_, r2_, c2_ = a.change_definition(m, b, profile=NFW(a, z, cosmo), z=z, cosmo=cosmo)
+                nconv += 1
+                if not (np.allclose(m1_, m2_, rtol=1e-9) and np.allclose(c1_, c2_, rtol=1e-9)):
+                    viol("conversion/profile-built-at-another-redshift", f"{a} -> {b} at z={z} with a profile object built at z=0 gives masses {float(np.max(np.abs(m1_ / m2_ - 1))):.3g} away from those with a profile built at z={z}",
+                         {"a": str(a), "b": str(b), "z": z})
             da, db = a.halo_density(z, cosmo), b.halo_density(z, cosmo)
             if (db > da and not np.all(mb < m)) or (db < da and not np.all(mb > m)):
                 viol("conversion/denser-smaller", f"{a} -> {b} at z={z}: denser definition does not give a smaller mass", {"a": str(a), "b": str(b), "z": z})
